@@ -178,7 +178,7 @@ pub fn run_c04(ctx: &Ctx) -> Report {
     let mut rng = Rng::new(ctx.seed ^ 0xC04);
     run_suite(&mut rep, &mut rng, ctx.n(250, 5000), &Suite { id: "C04", opts: GenOpts { faults: true, subsume: false, delete: false, pushpop: false, ncmds: 12 }, threads: 1, pairs: false });
     large_tables(&mut rep, &mut rng, ctx.n(8, 150), "C04");
-    crate::props::c14::large_container_stream(&mut rep, &mut rng, ctx.n(20, 300));
+    crate::props::c14::large_container_stream(&mut rep, &mut rng, ctx.n(20, 80));
     // corpus: defect 2
     let mut eg = egglog::EGraph::default();
     let p = "(datatype E (A) (B) (F E))\n(F (A))\n(F (B))\n(rule ((F x)) ((union (A) (B)) (panic \"boom\")))\n";
